@@ -27,7 +27,7 @@ SECTION8 = ["PendingReuse", "PaintBody", "MacroequalSpace"]
 QUICK = dict(ref=["peek", "t0", "redef", "q1s", "q2s", "q3s", "q4s", "q5s"], dev=["sec8", "t0", "redef", "q1s", "q2s", "q3s", "q4s", "q5s"],
              simE=(6, 150), simC=(4, 120), audit=4000)
 THOROUGH = dict(ref=["peek2", "t0", "redef", "q1", "q2", "q3", "q4", "q5s"], dev=["sec8", "t0", "redef", "q1", "q2", "q3", "q4", "q5s"],
-                simE=(14, 700), simC=(10, 500), audit=40000)
+                simE=(12, 600), simC=(8, 400), audit=30000)
 
 
 # ---------------------------------------------------------------- rendering (glue)
@@ -330,9 +330,20 @@ def run_sim(ctx, cfg, seed, num):
     return [json.loads(v) for v in r.vcases]
 
 
+def get_objs():
+    """builds are cached by vlib and evicted by age: (re)acquire them right before use and refresh their age"""
+    objs = {"hooks": vlib.build("hooks"), "plain": vlib.build("plain")}
+    for d in objs.values():
+        try:
+            os.utime(os.path.join(d, ".ok"))
+        except OSError:
+            pass
+    return objs
+
+
 def run(ctx):
     plan = QUICK if ctx.quick else THOROUGH
-    objs = {"hooks": vlib.build("hooks"), "plain": vlib.build("plain")}
+    get_objs()                       # fail early if the tree does not build
     ctx.cov["rule"] = ("BFS: every program of the spaces %s of Macro.tla (1-3 macro definitions with bodies over macro names, parameters, "
                        "'#param', parentheses, commas, literals x every source of bounded length incl. newlines and a directive "
                        "between text lines; #define/#undef histories of length<=3). Simulation: random programs of <=12 macros, 0-4 "
@@ -356,7 +367,8 @@ def run(ctx):
         if kind == "simE":
             return run_sim(ctx, "MC_Macro_sim.cfg", arg, numE)
         return run_sim(ctx, "MC_Macro_simC.cfg", arg, numC)
-    results = vlib.pmap(do, jobs, workers=5)
+    jobs.sort(key=lambda j: {"ref": 0, "dev": 0, "simC": 1, "simE": 2}[j[0]])   # long jobs first
+    results = vlib.pmap(do, jobs, workers=6)
     bfs_cases, sim_cases = [], []
     for (kind, arg), cs in zip(jobs, results):
         (bfs_cases if kind == "dev" else sim_cases).extend(cs)
@@ -378,6 +390,7 @@ def run(ctx):
     if need - taken:
         raise vlib.MachineryError("vacuity guard: PPModel actions never taken: %s" % sorted(need - taken))
     # flow A: replay
+    objs = get_objs()
     seen = set()
     allc = []
     for c in bfs_cases + sim_cases:
